@@ -194,12 +194,29 @@ def _cases(tier):
                         ("ii", [(3, 3)]), ("...->...", [(2, 3)]), ("a...b,b...->a...", [(2, 3, 2), (2, 3)]), ("...a,...a->...", [(2,), (3, 2)])):
         vs = ", ".join("xyz"[: len(shapes)])
         add(f"einsum('{sub}')", f"lambda anp, {vs}: anp.einsum('{sub}', {vs})", shapes)
+    add("einsum('ij,ij->ij' size-1 bcast)", "lambda anp, x, y: anp.einsum('ij,ij->ij', x, y)", [(3, 2), (1, 2)], second=False)
+    add("einsum('...ij,...jk->...ik' size-1 batch)", "lambda anp, x, y: anp.einsum('...ij,...jk->...ik', x, y)", [(1, 2, 3), (2, 3, 2)], second=False)
+    add("einsum('ij,jk->ik' size-1 contracted)", "lambda anp, x, y: anp.einsum('ij,jk->ik', x, y)", [(2, 1), (3, 2)], second=False)
+    add("einsum('i,i->i' size-1)", "lambda anp, x, y: anp.einsum('i,i->i', x, y)", [(1,), (3,)], second=False)
+    add("c_[x, y] 1-D", "lambda anp, x, y: anp.c_[x, y]", [(3,), (3,)], second=False)
+    add("c_[x, y] 2-D", "lambda anp, x, y: anp.c_[x, y]", [(2, 2), (2, 3)], second=False)
+    add("c_[x, y] 3-D", "lambda anp, x, y: anp.c_[x, y]", [(2, 2, 2), (2, 2, 2)], second=False)
+    add("c_[x, y] 3-D last differs", "lambda anp, x, y: anp.c_[x, y]", [(2, 2, 1), (2, 2, 2)], second=False)
+    add("r_[x, y] 1-D", "lambda anp, x, y: anp.r_[x, y]", [(2,), (3,)], second=False)
+    add("r_[x, y] 2-D", "lambda anp, x, y: anp.r_[x, y]", [(1, 2), (2, 2)], second=False)
+    add("r_['1', x, y]", "lambda anp, x, y: anp.r_['1', x, y]", [(2, 2), (2, 1)], second=False)
+    add("r_[x, 0.0, y]", "lambda anp, x, y: anp.r_[x, 0.5, y]", [(2,), (2,)], second=False, mode="flt")
+    add("select overlapping conds", "lambda anp, x, y: anp.select([__import__('numpy').array([True, True, False, False]), __import__('numpy').array([False, True, True, False])], [x, y], default=0.5)", [(4,), (4,)], mode="flt", second=False)
     add("einsum(list-form)", "lambda anp, x, y: anp.einsum(x, [0, 1], y, [1, 2], [0, 2])", [(2, 3), (3, 2)])
     add("einsum(list-form,ellipsis-mid)", "lambda anp, x, y: anp.einsum(x, [0, Ellipsis, 1], y, [1, 2], [0, Ellipsis, 2])", [(2, 2, 3), (3, 2)])
     add("einsum(list-form,ellipsis-tail,bcast)", "lambda anp, x, y: anp.einsum(x, [0, Ellipsis], y, [0, Ellipsis], [0, Ellipsis])", [(3,), (3, 2)])
     add("einsum(list-form,ellipsis-tail,bcast2)", "lambda anp, x, y: anp.einsum(x, [0, 1, Ellipsis], y, [1, 2, Ellipsis], [0, 2, Ellipsis])", [(2, 3), (3, 2, 2, 2)], second=False)
     add("einsum(list-form,ellipsis-head,bcast2)", "lambda anp, x, y: anp.einsum(x, [Ellipsis, 0, 1], y, [Ellipsis, 1, 2], [Ellipsis, 0, 2])", [(2, 3), (2, 2, 3, 2)], second=False)
     add("einsum('ij...,jk...->ik...' bcast2)", "lambda anp, x, y: anp.einsum('ij...,jk...->ik...', x, y)", [(2, 3), (3, 2, 2, 2)], second=False)
+    add("einsum(list-form,ellipsis-tail,rank-diff)", "lambda anp, x, y: anp.einsum(x, [0, Ellipsis], y, [0, Ellipsis], [0, Ellipsis])", [(2, 3), (2, 2, 3)], second=False)
+    add("einsum(list-form,size-1 bcast)", "lambda anp, x, y: anp.einsum(x, [0, 1], y, [0, 1], [0, 1])", [(3, 2), (1, 2)], second=False)
+    add("einsum(list-form,size-1 contracted)", "lambda anp, x, y: anp.einsum(x, [0, 1], y, [1, 2], [0, 2])", [(2, 1), (3, 2)], second=False)
+    add("einsum('i,i->' size-1)", "lambda anp, x, y: anp.einsum('i,i->', x, y)", [(1,), (3,)], second=False)
     add("einsum(list-form,ellipsis-mid,bcast)", "lambda anp, x, y: anp.einsum(x, [0, Ellipsis, 1], y, [0, Ellipsis, 1], [0, Ellipsis])", [(3, 2), (3, 2, 2)])
     for sa, sb in (((2, 2), (2, 2)), ((2,), (2, 2)), ((2, 2), (2,)), ((), (2, 2)), ((2,), (3,)), ((2, 1), (1, 3)), ((1, 2, 2), (2, 1, 2))):
         add("kron", "lambda anp, x, y: anp.kron(x, y)", [sa, sb], second=False)
